@@ -923,6 +923,15 @@ int main(void)
         printf("size %zu dec=%s sos=%zu rst=", r->size, r->dec ? "ok" : "fail", sos);
         { int cnt = 0; for (k = sos; k + 1 < r->size && cnt < 200; k++)
             if (r->data[k] == 0xFF && r->data[k + 1] >= 0xD0 && r->data[k + 1] <= 0xD7) { printf("%s%zu", cnt ? "," : "", k); cnt++; } }
+        /* ends of the header segments (SOI, APPn incl. every ICC chunk, DQT, SOF, DHT, SOS header) */
+        printf(" seg=2");
+        { size_t q = 2; int cnt = 0;
+          while (q + 3 < r->size && r->data[q] == 0xFF && cnt < 300) {
+            size_t e = q + 2 + ((size_t)r->data[q + 2] << 8 | r->data[q + 3]);
+            printf(",%zu", e); cnt++;
+            if (r->data[q + 1] == 0xDA) break;
+            q = e;
+          } }
         printf("\n"); }
       heap_reset();
     } else if (!strncmp(line, "wc ", 3)) run_wc(line + 3);
